@@ -121,7 +121,7 @@ def header(cfg, driver=False):
         cfg["n"], f2bits(cfg["delta"]), f2bits(cfg["lam"]), f2bits(cfg["tol"]), cfg["maxit"], f2bits(cfg["lo"]), f2bits(cfg["hi"]))
     if driver:
         m = CONS[cfg["con"]][0]
-        return "constrained m=%d k=%d %s %s" % (m, cfg["n"] - m, base, cfg.get("aparams", ""))
+        return "constrained m=%d k=%d tbfix=1 %s %s" % (m, cfg["n"] - m, base, cfg.get("aparams", ""))
     obs = "none" if cfg["obs"] is None else "%d:%s:%s" % (cfg["obs"][0], f2bits(cfg["obs"][1]), f2bits(cfg["obs"][2]))
     return "constrained space=%s con=%s %s seed=%d obs=%s" % (cfg["space"], cfg["con"], base, cfg["seed"], obs)
 
@@ -510,6 +510,14 @@ def oracle_line(cfg, op, out):
                 if not sts or not dist(sts[-1], to) <= cfg["delta"] * (1 + REL):
                     fails.append(("geo", "success-far", "geodesic reported success but its last state is %.17g from the target (delta %.17g)"
                                   % (dist(sts[-1], to) if sts else float("nan"), cfg["delta"])))
+        if t[1] == "0" and len(sts) >= 2:
+            # interpolate = false: every stored state after the first was validated before it was stored — all three spaces
+            # (TangentBundle since the F175 repair 2365cedab; no exemption: a revert alarms here)
+            for j, x in enumerate(sts[1:]):
+                if not valid_py(cfg, x):
+                    fails.append(("geo", "stored-state-invalid", "discreteGeodesic(interpolate=false) stored the invalid state %d of %d" % (j + 1, len(sts))))
+                    break
+        if space in ("proj", "atlas"):
             if sts and [f2bits(v) for v in sts[0]] != t[2:2 + n]:
                 fails.append(("geo", "first-not-from", "the first stored state is not `from`"))
     elif t[0] == "interp":
@@ -1229,19 +1237,31 @@ MANIFEST = {
     "category": "proof",
     "level": "proof for control flow given oracle answers; residuals sampled",
     "design_ref": "DESIGN.md 2.16",
-    "text": "Lean 4 theorems over an executable model of Constraint::project, ProjectedStateSpace::discreteGeodesic, "
-            "ConstrainedStateSpace::interpolate / geodesicInterpolate, ConstrainedMotionValidator::checkMotion (both forms) and the "
-            "ProjectedStateSampler, with Constraint::function, the Newton step and isValid as arbitrary stateful oracles (every answer "
-            "stream, by induction, no bound on the traversal): project true => the residual test passed on the returned state; every stored "
-            "geodesic state is the output of a successful projection and was answered valid; step bound; success => within delta; strict "
-            "progress; geodesicInterpolate / interpolate return a stored state with all indices in range; checkMotion iff; lastValid "
-            "fraction in [0,1); and the kernel-checked witness that the sampler ignores a failed projection (F10).  Tied to the code by "
-            "replaying, in the compiled model, the oracle answers recorded from the real ProjectedStateSpace (bit-identical geodesics, "
-            "picks, verdicts, lastValid), and for all three spaces a Python spec oracle on the real outputs (residuals, step bound, success "
-            "distance, planner path vertices).",
-    "note": "Trusted: Lean kernel, the three standard axioms, the hand-written model outside the explored inputs, the recording harness. "
-            "Newton convergence, Eigen's SVD and the Atlas / TangentBundle chart geometry are oracles: that real samplers / geodesics land "
-            "within tolerance is sampled, not proved.  Known findings: F10 (ProjectedStateSampler discards project()'s verdict; all three "
-            "samplers enforce bounds after projecting).",
-    "technique": "Lean 4 proof (induction over the traversal for every oracle answer stream) + recorded-oracle replay correspondence + spec oracle",
+    "text": "Lean 4 theorems (61) over executable models, as coded, of Constraint::project / isSatisfied, ProjectedStateSpace::"
+            "discreteGeodesic, ConstrainedStateSpace::interpolate / geodesicInterpolate, ConstrainedMotionValidator::checkMotion (both "
+            "forms, after a7ee00eca), ProjectedStateSampler; AtlasStateSpace::discreteGeodesic, TangentBundleStateSpace::"
+            "discreteGeodesic (after the F175 repair 2365cedab) / project / geodesicInterpolate (after the F74 fix 8af6fc6c7), "
+            "AtlasStateSampler (the 32-bit `tries` counter and its fallbacks); AtlasChart's polytope bookkeeping (Halfspace, inPolytope, "
+            "borderCheck, generateHalfspace, owningChart's selection) and AtlasChart::psi with tolerance / maxIterations read at call "
+            "time.  Constraint::function, the Newton steps, isValid and every chart operation are arbitrary stateful oracles (every "
+            "answer stream, by induction, no bound on the traversal): successful project / psi => the residual test with the tolerance "
+            "of THAT call passed on the returned state; every stored geodesic state (all three spaces) is a successful projection "
+            "(Projected, Atlas) and was answered valid; step bound; success => within delta; geodesicInterpolate / interpolate return "
+            "stored (TangentBundle: re-projected or `from`) states with all indices in range; checkMotion iff (end state validated); "
+            "lastValid fraction in [0,1]; atlas samplers return a successful psi output or the fallback state; halfspace bisects / pair "
+            "leaves no crack (flat transition) / inPolytope antitone under generateHalfspace (exact, every ordered field).  Tied to the "
+            "code by replaying in the compiled model the oracle answers recorded from the real library (virtual overrides + symbol "
+            "interposition of the non-virtual chart methods): bit-identical geodesics, picks, verdicts, lastValid, sampler results for "
+            "all three spaces, and a bit-exact lock-step of the polytope tables; plus an independent Python spec oracle on the real "
+            "outputs (residuals under the tolerance in force at each op - tolerance / maxIterations change mid-script -, step bound, "
+            "success distance, stored and traversal states valid, inPolytope from the dumped halfspaces, planner path vertices).",
+    "note": "Trusted: Lean kernel, the three standard axioms, the hand-written model outside the explored inputs, the recording "
+            "harness incl. the interposition (fails loudly if calls were inlined).  Newton convergence, Eigen's SVD/LU and the chart "
+            "maps psi/phi/psiInverse are oracles: that real samplers / geodesics land within tolerance is sampled, not proved.  Known "
+            "findings: F10 (ProjectedStateSampler discards project()'s verdict), F71 (all three samplers enforce bounds after "
+            "projecting).  Fixed in /repo and followed by the model: F74, F175, checkMotion end-state validation.  Observation (no C16 "
+            "oracle): Halfspace::distanceToPoint mis-parenthesised, expandToInclude includes the point only if |u|^2 >= 1 "
+            "(kernel-checked).",
+    "technique": "Lean 4 proof (induction over the traversal for every oracle answer stream; ordered-field algebra for the chart "
+                 "geometry) + recorded-oracle replay / lock-step correspondence + independent spec oracle",
 }
